@@ -89,9 +89,13 @@ def apply_op(world, op, ctx=None):
             ctx.setdefault('status', []).append((w.now, op['node'], res))
     elif kind == 'kerr':
         n = w.nodes[op['node']]
+        if n.state != 'running' or n.control is None:
+            return          # not in its event loop yet: start-up failures are not what this fault is for
         n.kernel.inject[n.kernel.req_no + op.get('nth', 1)] = ERRNOS[op.get('errno', 'ENOMEM')]
     elif kind == 'sendfail':
         n = w.nodes[op['node']]
+        if n.state != 'running':
+            return
         exc = op.get('exc', 'oserror')
         if exc == 'gaierror':
             f = lambda: _socket.gaierror(-2, 'Name or service not known')
